@@ -186,7 +186,8 @@ def layout(kind, i, focus):
 
 
 # ------------------------------------------------------------------------------------------ reject, not trim
-BAD_EXPRS = ['amount >', 'lambda: 0', 'contains("A"', '[1, 2]', '1 +* 2', 'amount ** 2']
+BAD_EXPRS = ['amount >', 'lambda: 0', 'contains("A"', '[1, 2]', '1 +* 2', 'amount ** 2',
+             '', '   ', ')', '"open', 'amount amount', 'contains("A") and']       # degenerate texts: nothing at all, blanks, a lone bracket, an open string
 UNKNOWN_KEYS = ['matches', 'tag', 'categroy', 'cat egory', 'filter', 'Sub-category']
 BAD_PRIO = ['high', '1.5', '', '1e3']
 
@@ -207,12 +208,12 @@ def corrupt_merchants(i, how):
 
     def ob(which: int, pick: int) -> bool:
         """
-        pre: 0 <= which <= 2 and 0 <= pick <= 5
+        pre: 0 <= which <= 2 and 0 <= pick <= 11
         post: _
         """
         from tally.merchant_engine import parse_merchants, MerchantParseError
         reset_tally_caches()
-        which, pick = _pick(which, 3), _pick(pick, 6)
+        which, pick = _pick(which, 3), _pick(pick, 12)
         lines = base.split('\n')
         spans = _rule_spans(base)
         which = which % len(spans)
@@ -270,12 +271,12 @@ def corrupt_views(i, how):
 
     def ob(which: int, pick: int) -> bool:
         """
-        pre: 0 <= which <= 1 and 0 <= pick <= 5
+        pre: 0 <= which <= 1 and 0 <= pick <= 11
         post: _
         """
         from tally.section_engine import parse_sections, SectionParseError
         reset_tally_caches()
-        which, pick = _pick(which, 2), _pick(pick, 6)
+        which, pick = _pick(which, 2), _pick(pick, 12)
         lines = base.split('\n')
         spans = _rule_spans(base)
         which = which % len(spans)
@@ -307,6 +308,10 @@ CORRUPT_FILES = {
     'bad-let-shadowed-by-field': '[A]\nlet: total = amount * * 2)\nfield: total = total\nmatch: contains("A")\ncategory: CA\n',
     'missing-match': '[A]\nmatch: contains("A")\ncategory: CA\n\n[B]\ncategory: CB\n',
     'bad-expression': '[A]\nmatch: contains("A"\ncategory: CA\n',
+    'empty-match': '[A]\nmatch: contains("A")\ncategory: CA\n\n[B]\nmatch:\ncategory: CB\n',
+    'blank-let': '[A]\nlet: x =\nmatch: contains("A")\ncategory: CA\n',
+    'lone-bracket': '[A]\nmatch: )\ncategory: CA\n',
+    'not-utf8-text': '[A]\nmatch: contains("A") and \x00\ncategory: CA\n',
 }
 
 
